@@ -77,7 +77,9 @@ def gen_clip_case(rng):
     P = rng.randint(1, 4)
     shapes = [tuple(rng.randint(1, 3) for _ in range(rng.randint(1, 3))) for _ in range(P)]
     nb = rng.choice([1, 1, 2, 3])
-    sizes = [rng.randint(0 if (kind != "adaptive" and rng.random() < 0.15) else 1, 5) for _ in range(nb)]
+    # empty physical batches: AdaClipDPOptimizer and the DDP per-layer hook raise on them (findings D21 / C18-F2,
+    # owned by C20 / C18 and replayed there); here they are generated for the optimizers that accept them
+    sizes = [rng.randint(0 if (kind not in ("adaptive", "perlayer-ddp") and rng.random() < 0.15) else 1, 5) for _ in range(nb)]
     # list-valued grad_sample (accumulated backward passes) for some batches
     pieces = [rng.randint(1, 2) if s >= 2 else 1 for s in sizes]
     g = torch.Generator().manual_seed(rng.randrange(1 << 30))
